@@ -62,8 +62,8 @@ pub const PAD: [usize; 3] = [0, 1, 2];
 pub const DIL: [usize; 2] = [1, 2];
 pub const CH: [usize; 2] = [1, 2];
 pub const FI: [usize; 3] = [1, 2, 3];
-pub const HH: [usize; 4] = [4, 3, 5, 6];
-pub const WW: [usize; 4] = [5, 3, 4, 7];
+pub const HH: [usize; 6] = [4, 3, 5, 6, 1, 2];
+pub const WW: [usize; 6] = [5, 3, 4, 7, 1, 2];
 
 #[derive(Clone, Copy, PartialEq, Debug)]
 pub enum Kind {
@@ -75,9 +75,9 @@ pub enum Kind {
 /// domains of the single-layer lattice for a kind: [kh,kw,sh,sw,ph,pw,dh,dw,c,f,h,w]
 pub fn lattice_domains(kind: Kind) -> Vec<usize> {
     match kind {
-        Kind::Conv => vec![3, 3, 2, 2, 3, 3, 2, 2, 2, 3, 4, 4],
-        Kind::Deconv => vec![3, 3, 2, 2, 3, 3, 1, 1, 2, 3, 4, 4],
-        Kind::Pool => vec![3, 3, 3, 3, 1, 1, 1, 1, 2, 1, 4, 4],
+        Kind::Conv => vec![3, 3, 2, 2, 3, 3, 2, 2, 2, 3, 6, 6],
+        Kind::Deconv => vec![3, 3, 2, 2, 3, 3, 1, 1, 2, 3, 6, 6],
+        Kind::Pool => vec![3, 3, 3, 3, 1, 1, 1, 1, 2, 1, 6, 6],
     }
 }
 
